@@ -662,7 +662,7 @@ def tm_zoo(rng):
         d = [['s', 'a', 's', 'a', 'R'], ['s', 'b', 'l', 'b', 'L'], ['l', 'a', 'l', B, 'L'], ['l', B, 'r', B, 'R'],
              ['r', B, 'r', B, 'R'], ['r', 'b', 'e', 'b', 'R'], ['e', B, 'qA', B, 'R']]
         T = {'Q': ['s', 'l', 'r', 'e', 'qA', 'qR'], 'Sigma': ['a', 'b'], 'Gamma': ['a', 'b', B], 'delta': d, 'q0': 's', 'qa': 'qA', 'qr': 'qR', 'blank': B}
-        ws = ['a' * n + 'b' for n in (0, 1, 2, 5, 6, 7, 9, 12)] + ['aab' + 'a', 'b' + 'b', 'aaaa', '']
+        ws = ['a' * n + 'b' for n in (0, 1, 2, 5, 6, 7, 9, 12, 130)] + ['aab' + 'a', 'b' + 'b', 'aaaa', '']
         return T, ws
     if k == 1:
         # counter in cell 0: 0 -> 1 -> ... -> m by left moves at the left end (the head stays put), then accept / reject
@@ -685,7 +685,8 @@ def tm_zoo(rng):
              ['2', 'a', '2', 'a', 'L'], ['2', 'y', '2', 'y', 'L'], ['2', 'x', '0', 'x', 'R'],
              ['3', 'y', '3', 'y', 'R'], ['3', B, 'qA', B, 'R']]
         T = {'Q': ['0', '1', '2', '3', 'qA', 'qR'], 'Sigma': ['a', 'b'], 'Gamma': ['a', 'b', 'x', 'y', B], 'delta': d, 'q0': '0', 'qa': 'qA', 'qr': 'qR', 'blank': B}
-        return T, ['', 'ab', 'aabb', 'aaabbb', 'aaaabbbb', 'aaaaabbbbb', 'aab', 'abb', 'aabbb', 'ba', 'aaaabbb']
+        return T, ['', 'ab', 'aabb', 'aaabbb', 'aaaabbbb', 'aaaaabbbbb', 'aab', 'abb', 'aabbb', 'ba', 'aaaabbb',
+                   'a' * 12 + 'b' * 12, 'a' * 15 + 'b' * 15, 'a' * 13 + 'b' * 12]     # runs of 300-500 steps that revisit (state, head) pairs
     if k == 3:
         # palindromes over {a,b}
         d = [['s', 'a', 'ra', B, 'R'], ['s', 'b', 'rb', B, 'R'], ['s', B, 'qA', B, 'R'],
@@ -695,13 +696,13 @@ def tm_zoo(rng):
              ['cb', 'b', 'back', B, 'L'], ['cb', B, 'qA', B, 'R'], ['cb', 'a', 'qR', 'a', 'R'],
              ['back', 'a', 'back', 'a', 'L'], ['back', 'b', 'back', 'b', 'L'], ['back', B, 's', B, 'R']]
         T = {'Q': ['s', 'ra', 'rb', 'ca', 'cb', 'back', 'qA', 'qR'], 'Sigma': ['a', 'b'], 'Gamma': ['a', 'b', B], 'delta': d, 'q0': 's', 'qa': 'qA', 'qr': 'qR', 'blank': B}
-        return T, ['', 'a', 'aba', 'abba', 'abab', 'aabaa', 'abaaba', 'abbabba', 'aabbaab', 'babbab', 'abbbbbba']
+        return T, ['', 'a', 'aba', 'abba', 'abab', 'aabaa', 'abaaba', 'abbabba', 'aabbaab', 'babbab', 'abbbbbba', 'ab' * 6 + 'a' + 'ba' * 6, 'ab' * 7 + 'ba' * 7, 'a' * 13 + 'b' + 'a' * 12]
     if k == 4:
         # binary increment, most significant bit first: run to the right end, carry leftwards, accept
         d = [['r', '0', 'r', '0', 'R'], ['r', '1', 'r', '1', 'R'], ['r', B, 'c', B, 'L'],
              ['c', '1', 'c', '0', 'L'], ['c', '0', 'qA', '1', 'L'], ['c', B, 'qR', B, 'R']]
         T = {'Q': ['r', 'c', 'qA', 'qR'], 'Sigma': ['0', '1'], 'Gamma': ['0', '1', B], 'delta': d, 'q0': 'r', 'qa': 'qA', 'qr': 'qR', 'blank': B}
-        return T, ['', '0', '1', '111', '1011', '1111111', '01111111', '10101010']
+        return T, ['', '0', '1', '111', '1011', '1111111', '01111111', '10101010', '0' + '1' * 280, '1' * 300]
     # sweeps: replace every a by x one per round trip (quadratic number of steps), accept at the end
     d = [['f', 'x', 'f', 'x', 'R'], ['f', 'a', 'b', 'x', 'L'], ['f', B, 'qA', B, 'R'],
          ['b', 'x', 'b', 'x', 'L'], ['b', B, 'f', B, 'R'], ['b', 'a', 'b', 'a', 'L']]
@@ -710,7 +711,7 @@ def tm_zoo(rng):
          ['f', 'x', 'f', 'x', 'R'], ['f', 'a', 'b', 'x', 'L'], ['f', B, 'qA', B, 'R'],
          ['b', 'x', 'b', 'x', 'L'], ['b', '#', 'f', '#', 'R']]
     T = {'Q': ['i', 'f', 'b', 'qA', 'qR'], 'Sigma': ['a'], 'Gamma': ['a', 'x', '#', B], 'delta': d, 'q0': 'i', 'qa': 'qA', 'qr': 'qR', 'blank': B}
-    return T, ['', 'a', 'aa', 'aaaa', 'aaaaaaa', 'aaaaaaaaaa']
+    return T, ['', 'a', 'aa', 'aaaa', 'aaaaaaa', 'aaaaaaaaaa', 'a' * 20, 'a' * 26]
 
 
 def deep_drain_pda(rng):
